@@ -448,7 +448,12 @@ def _retained_orders(ctx, u, inf):
         g = ao.value.generators[0]
         tv = str(norm_src(g.target))
         res = g.iter
-        ok_proj = str(norm_src(ao.value.elt)) == f"{tv}[1]" and not g.ifs
+        e_ = ao.value.elt
+        ok_proj = isinstance(e_, ast.Subscript) and isinstance(e_.value, ast.Name) and isinstance(g.target, ast.Name) and e_.value.id == g.target.id \
+            and isinstance(e_.slice, ast.Constant) and e_.slice.value == 1 and not g.ifs
+        if not ok_proj and isinstance(g.target, (ast.Tuple, ast.List)) and len(g.target.elts) == 2 and isinstance(e_, ast.Name) and isinstance(g.target.elts[1], ast.Name) \
+                and e_.id == g.target.elts[1].id and not g.ifs and not (isinstance(g.target.elts[0], ast.Name) and g.target.elts[0].id == e_.id):
+            ok_proj = True          # [order for _, order in results]
         # the list projected is the list of _leaf_binning results over cut_points_list_
         from ..match import resolve_expr, cfg_node
         try:
